@@ -79,6 +79,12 @@ def generate(tier, rng):
             if lay["csv"] and lay["wide"] is not None and ds[lay["wide"]]["dtype"] is None and isinstance(ds[lay["wide"]]["items"][0], int):
                 continue   # CSV headers are text: integer items of an UNTYPED dimension cannot be recovered from them (flodym asks for a dtype there)
             cases.append(dict(stream="exact", kind="import", dims=ds, values=nz, layout=lay))
+        # a table of the right size in which one row carries the labels of another (so one label combination occurs
+        # twice and one is absent): whatever from_df returns cannot come from "the unique row carrying the labels"
+        if n >= 3:
+            for li, lay in enumerate([l for l in layouts(ds, tier, k) if not l["csv"] and l["header"] != "items"][:: 5 if tier == "quick" else 2]):
+                i, j = [(0, n - 1), (n - 1, 0), (1, n // 2 + 1 if n // 2 + 1 != 1 else 0)][li % 3]
+                cases.append(dict(stream="malformed", kind="import", dims=ds, values=nz, layout=lay, relabel=[i, j]))
     big = dict(letter="x", name="index40k", items=list(range(40000)), dtype="int")
     cases.append(dict(stream="exact", coq=False, kind="import", dims=[big], values=[str(Fraction(i % 97) + Fraction(1, 4)) for i in range(40000)],
                       layout=dict(where="columns", wide=None, header="names", omit_single=False, value_name="value", row_perm=None, col_perm=None, csv=False)))
@@ -108,6 +114,9 @@ def run_impl(case):
             r["value"] = observe_values(r["value"].values)
         return r
     rows = dd.full_rows(ds, [Fraction(v) for v in case["values"]])
+    if case.get("relabel"):
+        i, j = case["relabel"]
+        rows[j] = [list(rows[i][0]), rows[j][1]]
     df, pipeline, om, um = dd.build_df(ds, rows, case["layout"])
     r = observe(lambda: fd.FlodymArray.from_df(dims=dims, df=df))
     if r["kind"] == "ok":
@@ -139,6 +148,11 @@ def oracle(case, obs):
         return None
     desc = (f"to_df(index={case['index']}, dim_to_columns={case['dim_to_columns']}, sparse={case['sparse']})" if case["kind"] == "direct"
             else f"layout {case['layout']}") + f" dims {[d['letter'] + ':' + str(d.get('dtype')) for d in ds]}"
+    if case.get("relabel"):
+        i, j = case["relabel"]
+        if obs["kind"] == "ok":
+            return (f"from_df returned although two rows carry the labels {keys[i]} and none carries {keys[j]} ({desc})")
+        return None
     if obs["kind"] != "ok":
         return f"round trip through {desc} raised {obs['exc']}: {obs['msg'][:100]}"
     got = [None if v is None else Fraction(v[0], v[1]) for v in obs["value"]]
